@@ -1429,16 +1429,24 @@ class Exec(object):
     def _case_startswith_pattern(self, node):
         f = node.func
         if not (isinstance(f, ast.Attribute) and f.attr == 'startswith' and len(node.args) == 1 and not node.keywords
-                and isinstance(node.args[0], ast.Constant) and isinstance(node.args[0].value, str)):
+                and ((isinstance(node.args[0], ast.Constant) and isinstance(node.args[0].value, str)) or isinstance(node.args[0], ast.Name))):
             return None
         inner = f.value
         if not (isinstance(inner, ast.Call) and isinstance(inner.func, ast.Attribute) and inner.func.attr in ('lower', 'upper')
                 and not inner.args and not inner.keywords):
             return None
-        return inner.func.value, node.args[0].value, inner.func.attr
+        return inner.func.value, (node.args[0].value if isinstance(node.args[0], ast.Constant) else node.args[0]), inner.func.attr
 
     def e_Call(self, node, path, fr):
         cs = self._case_startswith_pattern(node)
+        if cs is not None and not isinstance(cs[1], str):
+            # the prefix is a variable: same treatment when it holds a concrete text on this path
+            try:
+                pv = self.eval(cs[1], path, fr)
+            except Unsupported:
+                pv = []
+            okc, cval = concrete_of(pv[0][1]) if len(pv) == 1 and not isinstance(pv[0][1], Raise) else (False, None)
+            cs = (cs[0], cval, cs[2]) if okc and isinstance(cval, str) and pv[0][0] is path else None
         if cs is not None:
             xnode, const, which = cs
             res = []
